@@ -261,6 +261,23 @@ class Run:
         }
         self.acts.append(entry)
         self.rec.ev('act', entry['n'], kind, _jsonable(arg), entry['phase'])
+        foreign = None
+        if self.case.get('foreign_loop_outside') and not self.drv.loop.is_running():
+            # the request is made by code whose current event loop is not the loop the process was built for (and which is not
+            # running at this moment): whatever the call creates belongs to the process's loop all the same
+            import asyncio
+            foreign = asyncio.new_event_loop()
+            asyncio.set_event_loop(foreign)
+            entry['foreign_loop_current'] = True
+        try:
+            return self._apply(entry, act, kind, arg, proc)
+        finally:
+            if foreign is not None:
+                import asyncio
+                asyncio.set_event_loop(self.drv.loop)
+                foreign.close()
+
+    def _apply(self, entry, act, kind, arg, proc):
         try:
             if kind == 'pause':
                 ret = proc.pause(arg)
@@ -512,7 +529,11 @@ class Run:
         """What the scenario still owes the process at a quiescent point (None = nothing)."""
         proc = self.proc
         if self.task is not None and self.task.done() and not proc.has_terminated():
-            return ['restart_task']  # the stepping task was aborted: somebody steps the process again
+            if any(a['kind'] == 'abort_task' for a in self.acts):
+                return ['restart_task']  # the stepping task was aborted: somebody steps the process again
+            # the stepping task ended on its own although the process is live (it died): nobody owes the process a new one
+            self.task_died = self._task_info(self.task)
+            return None
         if proc.paused:
             return ['play']
         if proc.state == ps.ProcessState.WAITING:
